@@ -21,7 +21,7 @@ MC_CFG = """CONSTANTS
 SPECIFICATION Spec
 INVARIANTS ExecOnlyUnderFilter FailureExitsNonZeroWithoutTarget WholeFileEnforced HappyPathRuns TraceOrder PolicyAsWritten
 CHECK_DEADLOCK FALSE
-""" % ", ".join('"%s"' % f for f in FAULTS)
+""" % ", ".join('"%s"' % f for f in FAULTS + ["execdenied"])
 TRACE_CFG = """CONSTANTS
   Faults = {%s}
   Dev = {}
@@ -386,6 +386,37 @@ def check(ctx, replay=None):
             viol("default_action %s%s: a call the policy answers with %s is observed by the target as %s, expected %s (rc %d)"
                  % (default, ", group action %s" % gact if gact else "", gact or default, got, want, res["rc"]), res,
                  {"policy": "default_action: %s; allow: every table name except the probe calls; errno: tuxcall%s" % (default, "; %s: security" % gact if gact else "")})
+    # (e) deny-by-default policies that say nothing about execve (allowed: every other table name): the command cannot start anything
+    #     under them on the tree as it is - and if a build does start the target, the target must see the policy's answer to execve too
+    no_exec = "  - action: allow\n    names:\n" + "".join("    - %s\n" % n for n in others if n != "execve")
+    nstarted = nruns = 0
+    for k, default in enumerate(["errno", "trace", "kill_process", "trap", "errno", "kill_thread"]):
+        text = "seccomp:\n  default_action: %s\n  syscalls:\n" % default + no_exec
+        if k == 4:
+            text += "  - action: errno\n    names:\n    - tuxcall\n"        # (a second group after the allow list)
+        fatal = default in ("kill_process", "trap", "kill_thread")
+        res = run_sandbox(d, scratch, "none", 3500 + k, policy_text=text, probes=["184"] if fatal else ["184", "59:0:0"], fatal="59:0:0" if fatal else None)
+        if res is None:
+            ctx.skip("sandbox run timed out")
+            continue
+        nruns += 1
+        ctx.cov["evaluations"] += 1
+        lines = [l for l in res["stdout"].strip().splitlines() if l.startswith("{")]
+        if not res["marker"] and not lines:
+            continue                      # the target was not started: nothing observed, nothing to judge
+        nstarted += 1
+        want = observes[default]
+        if fatal:
+            got = json.loads(lines[-1]).get("fatal") if len(lines) >= 2 else "died"
+        else:
+            try:
+                got = "returned:%d" % json.loads(lines[-1])["probes"][1]["errno"]
+            except Exception:
+                got = "no answer"
+        if got != want:
+            viol("default_action %s, execve in no group: the target was started and sees its own execve answered as %s, the policy says %s" % (default, got, want), res,
+                 {"policy": "default_action: %s; allow: every table name except the probe calls and execve" % default})
+    ctx.cov["deny_by_default_without_execve"] = {"runs": nruns, "target_started": nstarted}
     ctx.sample({"fault_runs": idx, "trace_sample": traces[0][1] if traces else None})
     ctx.cov["rule"] = ("every failure point (%s) x -no-new-privs x {root, nobody}: exit status and a marker file the target creates first; strace -f event sequences "
                        "validated by SandboxTrace.tla; the shipped-style policies and %d policies of the compiler scope `many` rendered as documented YAML, the target probing "
